@@ -435,3 +435,44 @@ class TSIXor(_Xor):
 @register
 class TSSymDiffUpdate(_Xor):
     qualname = "TraitSet.symmetric_difference_update"
+
+
+@register
+class TSInit(SetMutator):
+    """TraitSet(value, item_validator=..., notifiers=...): the new set holds exactly the validated items of `value`; the validator
+    handed in is the one used and kept; a rejected item propagates its exception; nobody is notified of the initial contents."""
+    qualname = "TraitSet.__init__"
+    overloads = ("validator-and-notifiers-given",)
+
+    def setup(self, cx, I, ov):
+        st, self_ref, S, V = make_set_self(cx, self.cls)
+        st = st.assume(S == EMPTY_SET)
+        h = st.heap[self_ref.oid]
+        st = st.put(self_ref.oid, HObj(h.kind, h.payload, h.cls, {}, h.meta))         # no instance-level validator / notifiers yet
+        st, refs, terms = self.set_operands(cx, st, 1, "value")
+        nref = VRef(cx.new_oid())
+        st = st.put(nref.oid, HObj("list", z3.Const("notifiers_given", SeqV)))
+        info = dict(S=S, V=V, self_ref=self_ref, operands=terms, nref=nref, witness=dict(value=terms[0]))
+        info["concretise"] = lambda m: None
+        return st, [self_ref, refs[0]], {"item_validator": V.as_value(), "notifiers": nref}, info
+
+    def reference(self, cx, I, ov, info):
+        V, (O,) = info["V"], info["operands"]
+        img = image(cx, V, O)
+        rej, match = rejected_in(V, O)
+        return rej, match, [("return", None, T, img)]
+
+    def _post(self, cx, I, ov, info, kind, payload, st):
+        out = [c for c in SetMutator._post(self, cx, I, ov, info, kind, payload, st) if "event" not in c[0] and "contents-unchanged" not in c[0]
+               and "silent" not in c[0] and "delta" not in c[0]]
+        out.append(("post:construction-notifies-nobody" if kind == "return" else "raise:construction-notifies-nobody", z3.BoolVal(len(st.ghost["events"]) == 0)))
+        if kind == "return":
+            f = st.heap[info["self_ref"].oid].fields
+            iv = f.get("item_validator")
+            out.append(("post:the-validator-handed-in-is-kept", z3.BoolVal(iv is not None and getattr(iv, "validator", None) is info["V"])))
+            n = f.get("notifiers")
+            out.append(("post:the-notifiers-handed-in-are-installed", z3.BoolVal(isinstance(n, VRef) and n.oid == info["nref"].oid)))
+        return out
+
+    def same_result(self, cx, info, payload, st, rp):
+        return z3.BoolVal(True)
